@@ -204,6 +204,67 @@ def run_corpus(shard):
     return acc
 
 
+READ_CENTRES = ['B', 'C', 'N', 'O', 'F', 'Si', 'P', 'S', 'Cl', 'Se', 'Br', 'I']
+READ_FRAMES = ['%s', 'C%s', 'C%sC', 'C=%s', 'C%s(C)C', 'C#%s', 'O=%s=O']
+
+
+def read_texts():
+    for sym in READ_CENTRES:
+        for h in (None, 0, 1, 2, 3, 4):
+            for ch in ('', '+', '-', '+2', '-2'):
+                b = '[%s%s%s]' % (sym, '' if h is None else ('H%d' % h if h != 1 else 'H'), ch)
+                for fi, fr in enumerate(READ_FRAMES):
+                    t = fr % b
+                    yield t
+                    idx = 0 if fr.startswith('%') else 1
+                    yield '%s |^1:%d|' % (t, idx)
+
+
+def check_parsed(acc, text, s2z):
+    """the molecule the SMILES reader delivers for a bracket atom: whatever state the reader decides on (it may re-guess the radical flag or replace an
+    impossible hydrogen count), the atom must carry a hydrogen count for which its element / charge / radical flag / bonds have a valence state,
+    or be reported by check_valence(); sums must be the sums"""
+    from chython import smiles
+    acc.transitions += 1
+    try:
+        m = smiles(text)
+    except Exception:
+        acc.ood['text rejected by the reader'] += 1
+        return
+    invalid = set(m.check_valence())
+    for n, a in m.atoms():
+        nb = [(b.order, m.atom(k).atomic_number) for k, b in m._bonds[n].items() if b.order != 8]
+        adm = valence.admissible_h(a, a.charge, a.is_radical, nb, s2z)
+        if a.implicit_hydrogens is None:
+            if n not in invalid:
+                acc.fail('parsed atom without hydrogen count is not reported by check_valence()', mol=text, atom=n, parsed=True)
+                return
+        elif a.implicit_hydrogens not in adm and n not in invalid:
+            acc.fail('parsed atom carries a hydrogen count for which its element, charge, radical flag and bonds have no valence state', mol=text, atom=n, parsed=True,
+                     got=[a.atomic_symbol, a.charge, a.is_radical, a.implicit_hydrogens], admissible=sorted(adm))
+            return
+    if not invalid and all(a.implicit_hydrogens is not None for _, a in m.atoms()):
+        r = check_sums(m)
+        if r:
+            acc.fail(r + ' (parsed molecule)', mol=text, parsed=True)
+            return
+        # the same atoms and bonds assembled through the editing interface: where the parsed count is the default count the formula must agree
+    acc.outcomes['parsed: radical' if m.is_radical else 'parsed: closed shell'] += 1
+
+
+def run_parsed(shard):
+    from chython.periodictable import Element
+    k, nsh, tier = shard
+    acc = Acc()
+    s2z = {c.__name__: c.atomic_number.fget(None) for c in Element.__subclasses__()}
+    for i, t in enumerate(read_texts()):
+        if i % nsh != k:
+            continue
+        acc.states += 1
+        check_parsed(acc, t, s2z)
+    return acc
+
+
 def plan(tier, seed):
     centres = CENTRES_Q
     st = [Stage('stars', run_stars, [(c, (ch,)) for c in centres for ch in (-2, -1, 0, 1, 2)],
@@ -218,6 +279,8 @@ def plan(tier, seed):
     st.append(Stage('whole molecules D(n,k)', run_small, [(k, 64, tier) for k in range(64)],
                     'D(<=%d,2) with 11 hetero elements, both construction paths' % (5 if tier == 'quick' else 6)))
     st.append(Stage('corpus vs RDKit', run_corpus, [(k, 32, tier) for k in range(32)], 'lipophilicity.csv stride %d: per-atom H vs RDKit (aromatic carbons as parsed, all atoms after kekule)' % (4 if tier == 'quick' else 1)))
+    st.append(Stage('bracket atoms as delivered by the SMILES reader', run_parsed, [(k, 16, tier) for k in range(16)],
+                    '12 centre elements x bracket hydrogens {none,0..4} x charge -2..2 x 7 frames x {plain, radical mark}: the state the reader decides on has a valence state for the hydrogen count it carries'))
     return st
 
 
@@ -254,6 +317,9 @@ def replay(rec):
     acc = Acc()
     s2z = {c.__name__: c.atomic_number.fget(None) for c in Element.__subclasses__()}
     tag = rec['mol']
+    if rec.get('parsed'):
+        check_parsed(acc, tag, s2z)
+        return [f for f in acc.fails if f['key'] == rec['key']]
     mt = re.match(r'star (\w+) charge=(-?\d+) radical=(\w+) bonds=(.*)$', tag)
     if mt:
         m = MoleculeContainer()
